@@ -316,6 +316,97 @@ fn gen<'a>(guests: &'a [Guest], thorough: bool) -> impl Fn(&mut EnumCtx) + Sync 
                 }
             }
         }
+        // ---- the same rule for accesses made from INSIDE a hook: a native before-hook on `nop`
+        // reads and writes the data area through the API, and the built-in pipe handler copies
+        // guest data into it (`read` into the masked area)
+        for mask in 0..8u32 {
+            if !e.next() {
+                continue;
+            }
+            e.describe("in-hook", &mask_name(mask));
+            thread_local! {
+                static HOOK_RES: std::cell::RefCell<(Option<bool>, Option<bool>)> = std::cell::RefCell::new((None, None));
+            }
+            let hook: &'static ax_x86::state::hooks::RustCallbackFunction = Box::leak(Box::new(|ax: &mut Axecutor, _m: ax_x86::auto::generated::SupportedMnemonic| {
+                let r = ax.mem_read_8(DATA + 0x40).is_ok();
+                let w = ax.mem_write_8(DATA + 0x41, 0x5A).is_ok();
+                HOOK_RES.with(|h| *h.borrow_mut() = (Some(r), Some(w)));
+                Ok(ax_x86::state::hooks::HookResult::Unhandled)
+            }));
+            let mut ax = machine(&[0x90], mask, 3);
+            ax.hook_before_mnemonic_native(ax_x86::auto::generated::SupportedMnemonic::Nop, hook).unwrap();
+            HOOK_RES.with(|h| *h.borrow_mut() = (None, None));
+            let before = areas_hash(&ax);
+            let out = crate::emu::step(&mut ax);
+            let (r, w) = HOOK_RES.with(|h| *h.borrow());
+            e.outcome(crate::common::fnv64(format!("inhook{mask}{r:?}{w:?}{}", out.class()).as_bytes()));
+            e.state(12_000 + mask as u64);
+            e.count("transitions", 1);
+            let wj = || json!({"mask": mask_name(mask), "path": "API access from inside a hook"});
+            if let StepOut::Panic(p) = &out {
+                e.finding(&format!("perm|in-hook|panic@{}", p.tag()), || format!("API access from a hook with mask {} panicked", mask_name(mask)), wj);
+                continue;
+            }
+            if r == Some(true) && mask & 1 == 0 {
+                e.finding("perm|in-hook|allowed-without-R", || format!("mem_read_8 from inside a hook succeeded on an area with mask {}", mask_name(mask)), wj);
+            }
+            if r == Some(false) && mask & 1 != 0 {
+                e.finding("perm|in-hook|denied-with-permission", || format!("mem_read_8 from inside a hook failed on an area with mask {}", mask_name(mask)), wj);
+            }
+            if w == Some(true) && mask & 2 == 0 {
+                e.finding("perm|in-hook|allowed-without-W", || format!("mem_write_8 from inside a hook succeeded on an area with mask {}", mask_name(mask)), wj);
+            }
+            if w == Some(false) && mask & 2 != 0 {
+                e.finding("perm|in-hook|denied-with-permission", || format!("mem_write_8 from inside a hook failed on an area with mask {}", mask_name(mask)), wj);
+            }
+            if mask & 2 == 0 && areas_hash(&ax) != before {
+                e.finding("perm|in-hook|denied-access-changed-memory", || format!("memory of an area with mask {} changed from inside a hook", mask_name(mask)), wj);
+            }
+            if r.is_none() {
+                e.finding("perm|in-hook|hook-did-not-run", || "the probing hook did not run".to_string(), wj);
+            }
+        }
+        for mask in 0..8u32 {
+            if !e.next() {
+                continue;
+            }
+            e.describe("pipe-read-into", &mask_name(mask));
+            // syscall x3: pipe(fds at STACKA+0x80), write(w, STACKA+0x90, 4), read(r, DATA+0x40, 4)
+            let mut ax = machine(&[0x0F, 0x05, 0x0F, 0x05, 0x0F, 0x05], mask, 3);
+            if ax.handle_syscalls(vec![ax_x86::helpers::syscalls::Syscall::Pipe]).is_err() {
+                continue;
+            }
+            let sys = |ax: &mut Axecutor, rax: u64, rdi: u64, rsi: u64, rdx: u64| {
+                ax.reg_write_64(SR::RAX, rax).unwrap();
+                ax.reg_write_64(SR::RDI, rdi).unwrap();
+                ax.reg_write_64(SR::RSI, rsi).unwrap();
+                ax.reg_write_64(SR::RDX, rdx).unwrap();
+                crate::emu::step(ax)
+            };
+            let o1 = sys(&mut ax, 22, STACKA + 0x80, 0, 0);
+            if !o1.is_ok() {
+                continue;
+            }
+            let rd = ax.mem_read_32(STACKA + 0x80).unwrap_or(0);
+            let wr = ax.mem_read_32(STACKA + 0x84).unwrap_or(0);
+            let o2 = sys(&mut ax, 1, wr, STACKA + 0x90, 4);
+            if !o2.is_ok() {
+                continue;
+            }
+            let before = areas_hash(&ax);
+            let o3 = sys(&mut ax, 0, rd, DATA + 0x40, 4);
+            e.outcome(crate::common::fnv64(format!("piperead{mask}{}", o3.class()).as_bytes()));
+            e.state(13_000 + mask as u64);
+            e.count("transitions", 3);
+            let wj = || json!({"mask": mask_name(mask), "path": "built-in read() handler copying into the area"});
+            match o3 {
+                StepOut::Panic(p) => e.finding(&format!("perm|pipe-read|panic@{}", p.tag()), || format!("read() into an area with mask {} panicked", mask_name(mask)), wj),
+                StepOut::Ok(_) if mask & 2 == 0 => e.finding("perm|pipe-read|allowed-without-W", || format!("read() stored pipe data into an area with mask {}", mask_name(mask)), wj),
+                StepOut::Err(_) if mask & 2 == 0 && areas_hash(&ax) != before => e.finding("perm|pipe-read|denied-access-changed-memory", || format!("read() into an area with mask {} failed but memory changed", mask_name(mask)), wj),
+                StepOut::Err(er) if mask & 3 == 3 => e.finding("perm|pipe-read|denied-with-permission", || format!("read() into an area with mask {} failed: {}", mask_name(mask), crate::emu::first_line(&er)), wj),
+                _ => {}
+            }
+        }
         // ---- instruction fetch that would have to continue in the NEXT area: the first bytes of
         // `mov rax, 0x2a` end an executable area, the rest starts an adjacent area whose mask
         // varies; executing it needs X on every byte fetched
@@ -476,7 +567,7 @@ pub fn run(tier: Tier) -> i32 {
         return crate::common::finish_replay("C09", &art, &|ws| confirm_enum(&o, &g, ws));
     }
     let out = run_enum(&o, &g);
-    enum_evidence(&mut run, &out, "one case = (permission mask of the operand's area, access path); paths: 12 API accessors, instruction fetch, every canonical memory-touching instruction form of the census (explicit operand and implicit stack access separately), constructor/ELF configurations; required permission per operand from iced OpAccess; states = distinct (path, mask) pairs; distinct_nontrivial = distinct (path, mask, outcome)");
+    enum_evidence(&mut run, &out, "one case = (permission mask of the operand's area, access path); paths: 12 API accessors (also called from inside a native hook), the built-in read() handler copying pipe data into the area, instruction fetch, every canonical memory-touching instruction form of the census (explicit operand and implicit stack access separately), constructor/ELF configurations; required permission per operand from iced OpAccess; states = distinct (path, mask) pairs; distinct_nontrivial = distinct (path, mask, outcome)");
     run.cov("memory_touching_forms", json!(guests.len()));
     run.cov("census", info);
     run.guard("forms", guests.len() >= 150, format!("{} memory-touching forms", guests.len()));
